@@ -77,7 +77,7 @@ theorem respStep_draining (c : Cfg) (i : In) :
     exact ⟨by simp [clearMessages, hd], by simpa using ho⟩
   · split
     · refine ⟨?_, by simpa using ho⟩
-      rw [(sendResponse_frame c _ _ _ _).draining, (dropReceiver_frame s _).draining]; exact hd
+      rw [(handlerResp_frame c i _ _ _).draining, (dropReceiver_frame s _).draining]; exact hd
     · show Iter.sat _ o (if (pollRequest c i s).2.1 = true then _ else _)
       have h1 := (pollRequest_frame c i s).draining
       have h2 := pollRequest_draining_nocall c i s hd
